@@ -199,3 +199,28 @@ def class_wrappers_of_exp_and_log(env, cfg, ck):
         S6 = np.array(list(t) + [phi * x for x in u])
         ck.eq('SE3.Exp=trexp', ck.call(sm.SE3.Exp, S6).A, ck.call(b.trexp, S6), tol=1e-9, scale=sc)
         ck.eq('Twist3.exp=trexp', ck.call(sm.Twist3(S6).exp).A, ck.call(b.trexp, S6), tol=1e-9, scale=sc)
+
+
+@contract('C03', targets=['spatialmath.twist.Twist3.exp', 'spatialmath.twist.Twist2.exp'], configs=product(dim=[3, 2]))
+def twist_exp_with_explicit_theta(env, cfg, ck):
+    """S.exp(theta) = exp(theta [S]) = trexp(theta * S) for a unit twist, for symbolic theta and at theta = 0 exactly
+    (the identity), and S.exp() = trexp(S)"""
+    b, np, sm = env.base, env.np, env.sm
+    if cfg['dim'] == 3:
+        w = env.unitvec('w', 3)
+        v = env.reals('v', 3)
+        S = sm.Twist3(np.array(list(v) + list(w)))
+        ex, n = b.trexp, 4
+    else:
+        v = env.reals('v', 2)
+        S = sm.Twist2(np.array(list(v) + [1]))
+        ex, n = b.trexp2, 3
+    sc = 1 + A.normsq(np, v)
+    th = env.real('th', -6.3, 6.3)
+    env.assume(th * th >= 1e-18)
+    ck.eq('exp(theta)', ck.call(S.exp, th).A, ck.call(ex, S.S, th), scale=sc)
+    ck.eq('exp(theta)=exp(theta*S)', ck.call(S.exp, th).A, ck.call(lambda: (S * th).exp()).A, scale=sc)
+    for zero in (0, 0.0):
+        ck.eq('exp(%r)' % zero, ck.call(S.exp, zero).A, np.eye(n), scale=sc)
+    ck.eq('exp(0,deg)', ck.call(S.exp, 0, 'deg').A, np.eye(n), scale=sc)
+    ck.eq('exp()', ck.call(S.exp).A, ck.call(ex, S.S), scale=sc)
